@@ -359,30 +359,40 @@ Definition mesh_key_eqb (a b : N * option N) : bool := (fst a =? fst b) && optN_
 Definition find_mesh (k : N * option N) (tab : list (N * option N * N)) : option N :=
   option_map snd (find (fun e => mesh_key_eqb (fst e) k) tab).
 
-Definition add_mesh (mo : pmodel) (s0 : state) : option N * state :=
+(* geometry of a mesh pointer: written once (writtenMeshData), later models reuse the accessor indices *)
+Definition mesh_data (m : pmesh) (s : state)
+  : (list (string * N) * N) * bufst * list (N * (list (string * N) * N)) :=
+  match lookupN (me_ptr m) (st_wr_tab s) with
+  | Some ai => (ai, st_b s, st_wr_tab s)
+  | None => let '(ai, b) := write_mesh_data m (st_b s) in (ai, b, (me_ptr m, ai) :: st_wr_tab s)
+  end.
+
+(* AddMesh after the material has been resolved: one mesh entry per (mesh pointer, material index) *)
+Definition place_mesh (mo : pmodel) (mati : option N) (s : state) : option N * state :=
   let m := mo_mesh mo in
-  if prim_count m =? 0 then (None, s0) else
-  let '(mati, s) := match mo_mat mo with
-                    | None => (None, s0)
-                    | Some pm => let '(i, s1) := add_material pm s0 in (Some i, s1)
-                    end in
   let key := (me_ptr m, mati) in
   match find_mesh key (st_mesh_tab s) with
   | Some i => (Some i, s)
   | None =>
       let mi := len (st_meshes s) in
-      let '(attrs, ii, b, wr) :=
-        match lookupN (me_ptr m) (st_wr_tab s) with
-        | Some (a, i) => (a, i, st_b s, st_wr_tab s)
-        | None => let '((a, i), b) := write_mesh_data m (st_b s) in (a, i, b, (me_ptr m, (a, i)) :: st_wr_tab s)
-        end in
+      let '(ai, b, wr) := mesh_data m s in
       let gm := {| gm_name := mo_name mo;
-                   gm_prims := [{| gp_attrs := attrs; gp_idx := Some ii; gp_mat := mati;
+                   gm_prims := [{| gp_attrs := fst ai; gp_idx := Some (snd ai); gp_mat := mati;
                                    gp_mode := if me_point m then Some 0 else None |}] |} in
       (Some mi, {| st_b := b; st_x := st_x s; st_meshes := st_meshes s ++ [gm]; st_nodes := st_nodes s;
                    st_scene := st_scene s; st_mats := st_mats s; st_mat_tab := st_mat_tab s;
                    st_mesh_tab := st_mesh_tab s ++ [(key, mi)]; st_wr_tab := wr; st_lights := st_lights s |})
   end.
+
+Definition resolve_material (mo : pmodel) (s0 : state) : option N * state :=
+  match mo_mat mo with
+  | None => (None, s0)
+  | Some pm => let '(i, s1) := add_material pm s0 in (Some i, s1)
+  end.
+
+Definition add_mesh (mo : pmodel) (s0 : state) : option N * state :=
+  if prim_count (mo_mesh mo) =? 0 then (None, s0) else
+  let '(mati, s) := resolve_material mo s0 in place_mesh mo mati s.
 
 (* ---- AddScene: one node per model whose mesh was added, then one node per light *)
 Definition write_instances (ins : list pinst) (b : bufst) : list (string * N) * bufst :=
@@ -394,24 +404,28 @@ Definition write_instances (ins : list pinst) (b : bufst) : list (string * N) * 
   let b3 := write_vec 4 CFloat (plain (map in_r ins)) b2 in
   ([("TRANSLATION"%string, t); ("SCALE"%string, sc); ("ROTATION"%string, r)], b3).
 
+(* the node of a model whose mesh has index [mi] *)
+Definition node_inst (mo : pmodel) (s : state) : option (list (string * N)) * bufst * texst :=
+  match mo_inst mo with
+  | [] => (None, st_b s, st_x s)
+  | _ => let '(a, b) := write_instances (mo_inst mo) (st_b s) in
+         (Some a, b, use_ext "EXT_mesh_gpu_instancing" (st_x s))
+  end.
+Definition add_node (mo : pmodel) (mi : N) (s : state) : state :=
+  let ni := len (st_nodes s) in
+  let '(inst, b, x) := node_inst mo s in
+  let nd := {| gn_name := mo_name mo; gn_mesh := Some mi; gn_t := mo_t mo; gn_r := mo_r mo; gn_s := mo_s mo;
+               gn_inst := inst; gn_light := None;
+               gn_exts := match inst with Some _ => ["EXT_mesh_gpu_instancing"%string] | None => [] end |} in
+  {| st_b := b; st_x := x; st_meshes := st_meshes s; st_nodes := st_nodes s ++ [nd];
+     st_scene := st_scene s ++ [ni]; st_mats := st_mats s; st_mat_tab := st_mat_tab s;
+     st_mesh_tab := st_mesh_tab s; st_wr_tab := st_wr_tab s; st_lights := st_lights s |}.
+
 Definition add_model (s0 : state) (mo : pmodel) : state :=
   let '(mi, s) := add_mesh mo s0 in
   match mi with
   | None => s
-  | Some mi =>
-      let ni := len (st_nodes s) in
-      let '(inst, b, x) :=
-        match mo_inst mo with
-        | [] => (None, st_b s, st_x s)
-        | _ => let '(a, b) := write_instances (mo_inst mo) (st_b s) in
-               (Some a, b, use_ext "EXT_mesh_gpu_instancing" (st_x s))
-        end in
-      let nd := {| gn_name := mo_name mo; gn_mesh := Some mi; gn_t := mo_t mo; gn_r := mo_r mo; gn_s := mo_s mo;
-                   gn_inst := inst; gn_light := None;
-                   gn_exts := match inst with Some _ => ["EXT_mesh_gpu_instancing"%string] | None => [] end |} in
-      {| st_b := b; st_x := x; st_meshes := st_meshes s; st_nodes := st_nodes s ++ [nd];
-         st_scene := st_scene s ++ [ni]; st_mats := st_mats s; st_mat_tab := st_mat_tab s;
-         st_mesh_tab := st_mesh_tab s; st_wr_tab := st_wr_tab s; st_lights := st_lights s |}
+  | Some mi => add_node mo mi s
   end.
 
 Definition light_out (l : plight) : glight :=
